@@ -311,6 +311,26 @@ def obligations():
     return list(agg.values()) + tree_depth_obligations() + [o for o in kauri_kernel_obligations() if "stateless" in o.name]
 
 
+def fresh_tree_obligations():
+    """every fit starts from `Tree()`: a single root leaf of cluster 0 that shares no container with any tree built before --
+    whatever was done to earlier trees (the node arrays are grown in place by _add_child).  History: build a tree, split it
+    twice, build another one."""
+    from gemclus.tree.kauri import Tree
+    from .tree_predict import build_tree
+    fn = "gemclus.tree.kauri.Tree.__init__"
+    first = build_tree([0, 1], [0, 1], [0.5, 1.5])
+    second = Tree()
+    attrs = [a for a, v in vars(second).items() if isinstance(v, (list, dict, set, np.ndarray))]
+    shared = [a for a in attrs if any(getattr(second, a) is v for v in vars(first).values())]
+    single = (second.n_nodes == 1 and list(second.children_left) == [-1] and list(second.children_right) == [-1] and list(second.target) == [0]
+              and all(len(getattr(second, a)) == 1 for a in attrs))
+    ok = single and not shared
+    return [Ob("Tree(): a new tree is a single root leaf of cluster 0 and shares no container with a tree built (and split) before it",
+               PROVED if ok else REFUTED, "native-history", "P",
+               {"history": "t1 = Tree(); two _add_child on t1; t2 = Tree()", "t2.n_nodes": second.n_nodes, "t2.children_left": list(second.children_left)[:9],
+                "containers shared with t1": shared, "replayed": not ok}, fn=fn)]
+
+
 def tree_depth_obligations():
     """Tree.get_depth (the callee of the depth test of Kauri.fit): for EVERY integer node, the root 0 included, the depth
     of that node; the whole-tree depth only when no node is given (FX, all tree sizes) + complete enumeration on the real class."""
@@ -332,6 +352,13 @@ def tree_depth_obligations():
             ok = False
     obs = [Ob("Tree.get_depth: the only case split is `node is None` (whole-tree depth); any integer node, 0 included, gets depths[node]",
               PROVED if ok else REFUTED, "fx-dataflow", "P", {"paths": [[fx.show(c)[:80] for c, _ in st.pc] for st in sts]}, fn=fn)]
+    obs += fresh_tree_obligations()
+    if obs[-1].status != PROVED:
+        # trees built one after the other are not independent: the enumeration below (many trees in one process) would measure
+        # that defect, not get_depth
+        obs.append(Ob("Tree.get_depth(i) == number of edges from the root to i, for every node of every tree with <= 4 leaves (complete enumeration)",
+                      UNDECIDED, "enumeration", "P", {"why": "a new Tree() is not a fresh single-leaf tree (see that obligation)"}, fn=fn))
+        return obs
     bad = None
     n = 0
     for seq in split_sequences(4):
